@@ -235,8 +235,8 @@ CFG_TRUST = ['CFG._productions is taken to be a set (what every constructor call
              'lemma InBody(Rev s) = InBody s (bridge/cfgrev.lean) and closure-induction schema instances for CReach / UReach',
              'language preservation of the clean-up steps from their proved structure: textbook theorems (Hopcroft-Motwani-Ullman 7.2, 7.7, 7.13), assumed, backed by the bounded language comparison']
 mixed2('C09', [(CFGM, k) for k in ('CFG.get_reachable_symbols', 'CFG.get_unit_pairs', 'CFG.eliminate_unit_productions', 'CFG.remove_useless_symbols', 'fn.get_productions_d')]
-       + [('contracts.cfg_eps', 'CFG.remove_epsilon'), ('contracts.cfg_eps', 'fn.remove_nullable_production'), ('contracts.cfg_eps_sub', 'fn.remove_nullable_production_sub'), ('contracts.cfg_eps_ne', 'fn.remove_nullable_production_sub#no-epsilon')], [],
-      'Deductive for remove_epsilon: the result has exactly the productions head -> b\' where b\' is a non-empty body obtained from a body of the grammar by deleting some occurrences of nullable symbols (relation Sub, proved for the recursive helper remove_nullable_production_sub in two halves and for remove_nullable_production), for the least set of nullable symbols (proved in contracts/cfg_gen.py); no epsilon production, same start symbol. Deductive for get_reachable_symbols (= closure of "occurs in a body of"), get_unit_pairs (= unit-derivability from every variable), eliminate_unit_productions (exactly the non-unit bodies of every unit-reachable variable, and no unit production in the result), remove_useless_symbols (modular: given the assumed contract of get_generating_symbols the result keeps exactly the productions over generating symbols whose head is reachable, and only generating and reachable symbols) and the helper get_productions_d.',
+       + [('contracts.cfg_eps', 'CFG.remove_epsilon'), ('contracts.cfg_eps', 'fn.remove_nullable_production'), ('contracts.cfg_eps_sub', 'fn.remove_nullable_production_sub'), ('contracts.cfg_eps_ne', 'fn.remove_nullable_production_sub#no-epsilon'), ('contracts.cfg_cnf', 'CFG._get_productions_with_only_single_terminals')], [],
+      'Deductive for the first step of to_normal_form, _get_productions_with_only_single_terminals: exactly the one-symbol productions unchanged, the others with every terminal replaced by its own fresh variable (injective, not a variable of the grammar whatever names it uses), and one production variable -> terminal per terminal that was replaced. Deductive for remove_epsilon: the result has exactly the productions head -> b\' where b\' is a non-empty body obtained from a body of the grammar by deleting some occurrences of nullable symbols (relation Sub, proved for the recursive helper remove_nullable_production_sub in two halves and for remove_nullable_production), for the least set of nullable symbols (proved in contracts/cfg_gen.py); no epsilon production, same start symbol. Deductive for get_reachable_symbols (= closure of "occurs in a body of"), get_unit_pairs (= unit-derivability from every variable), eliminate_unit_productions (exactly the non-unit bodies of every unit-reachable variable, and no unit production in the result), remove_useless_symbols (modular: given the assumed contract of get_generating_symbols the result keeps exactly the productions over generating symbols whose head is reachable, and only generating and reachable symbols) and the helper get_productions_d.',
       'contract-based deductive verification (pyvc + z3) of the structural CFG clean-up functions; bounded run-time contract checking for nullable/generating counters, epsilon removal, terminal lifting, binarisation and for the language statements', CFG_TRUST + ['get_generating_symbols is proved in contracts/cfg_gen.py (worklist with counters, against the least-set spec GNS); the table builder CFG._set_impacts_and_remaining_lists is proved there too (one counter cell per non-empty production initialised with the body length, one _impacts entry per body position; ghost fields pr / cell relate cells and productions), and the worklist is proved to give every counter back; assumed: the List.countP / List.count / List.take facts proved in bridge/count.lean (NP, Occ, OccPre), the induction principle of the least set (one instance), Python lists of ints viewed as (length, array) with non-negative indices only, and that a freshly constructed grammar has its memo fields and tables set to None (the representation invariant then holds for every object reachable through the proved functions)'])
 mixed2('C10', [('contracts.cfg', 'CFG.reverse'), ('contracts.cfg', 'CFG.__invert__')] + [('contracts.cfg_subst', k) for k in ('CFG.substitute', 'CFG.union', 'CFG.concatenate', 'CFG.get_closure', 'CFG.get_positive_closure', 'CFG.__or__', 'CFG.__add__')], ['bridge/cfgrev.lean'],
       'Deductive for CFG.reverse: the result has exactly the productions with reversed bodies, same symbols and start symbol (all grammars); Mathlib ContextFreeGrammar.language_reverse gives the mirror language. '
@@ -261,10 +261,11 @@ mixed2('C13', [('contracts.pda', k) for k in ('fn.get_next_free[State]', 'fn.get
         'facts about Python strings assumed: the six reserved prefixes are pairwise different and end in "#" (so prefix+digits of one never equals another); State / StackSymbol equality is equality of the value',
         'view-level contracts of pda.TransitionFunction.copy / add_transition and of the PDA constructor are assumed (their concrete dict-of-set representation is not verified)'])
 
-mixed2('C14', [('contracts.llone', k) for k in ('LLOneParser._get_first_set_production', 'LLOneParser._get_triggers', 'LLOneParser._get_triggers_follow_set')], [],
-       'Deductive for three helper functions of the LL(1) construction: _get_first_set_production is FIRST of a sequence relative to a table of FIRST sets (union of the entries of the symbols whose predecessors are all nullable in the table, epsilon kept exactly when every symbol is nullable) - the function both the fixpoint and the parsing table are built from; _get_triggers maps a symbol to exactly the heads of the productions containing it; _get_triggers_follow_set relates head -> component exactly when everything after the component is nullable in the table. For every production, table and grammar.',
+mixed2('C14', [('contracts.llone', k) for k in ('LLOneParser._get_first_set_production', 'LLOneParser._get_triggers', 'LLOneParser._get_triggers_follow_set')]
+       + [('contracts.llone_table', 'LLOneParser.get_llone_parsing_table'), ('contracts.llone_table', 'LLOneParser.is_llone_parsable')], [],
+       'Deductive for the parsing table and the verdict, relative to the FIRST / FOLLOW tables: table[A][a] lists exactly the productions A -> alpha with a in PREDICT(A -> alpha) (FIRST of alpha, plus FOLLOW(A) without epsilon when every symbol of alpha is nullable), each once, and is_llone_parsable() is True exactly when no two productions of a variable share a predict symbol. Deductive for three helper functions of the LL(1) construction: _get_first_set_production is FIRST of a sequence relative to a table of FIRST sets (union of the entries of the symbols whose predecessors are all nullable in the table, epsilon kept exactly when every symbol is nullable) - the function both the fixpoint and the parsing table are built from; _get_triggers maps a symbol to exactly the heads of the productions containing it; _get_triggers_follow_set relates head -> component exactly when everything after the component is nullable in the table. For every production, table and grammar.',
        'contract-based deductive verification (pyvc + z3) of the per-production helper functions; bounded run-time contract checking (textbook least fixpoints, predict sets, tree validation) for the fixpoint loops, the table, the verdict and the parser',
-       ['the fixpoint loops get_first_set / get_follow_set (cardinality comparisons on growing sets, SetQueue), get_llone_parsing_table, is_llone_parsable and get_llone_parse_tree are not under contract: that the proved helper functions are combined into the least fixpoints is only covered by the bounded comparison',
+       ['the fixpoint loops get_first_set / get_follow_set (cardinality comparisons on growing sets, SetQueue) and get_llone_parse_tree are not under contract: the table and the verdict are proved for whatever tables the two fixpoints return; that these are the textbook FIRST / FOLLOW sets is only covered by the bounded comparison',
         'all cfg.Epsilon() objects are one value (Terminal.__eq__ compares values); a theory lemma about the element of a suffix s[lo:] is stated as an axiom'])
 
 C19_FRAME_JOBS = [('contracts.fa', k) for k in ('ENFA.get_intersection', 'ENFA.get_complement', 'ENFA.get_difference', 'ENFA.reverse', 'ENFA.copy', 'DFA.copy', 'ENFA.to_deterministic',
